@@ -914,6 +914,47 @@ fn subset_world(id: &str, g: &str, lang: &str, pool: &[&str], masks: &[usize], l
     l
 }
 
+/// Depth-first order vs string order: a directory `<d>` with children next to siblings `<d><c>…` for every
+/// legal character `c` below '/' (0x20..0x2E without the glob metacharacter '*'): ascending string order puts
+/// those siblings BEFORE `<d>/child`, a depth-first walk after.  `layers` = 1 (nothing to merge), or the
+/// same content under / above an empty layer, or split over two layers.
+fn sibling_world(id: &str, g: &str, lang: &str, d: &str, variant: usize) -> Vec<String> {
+    let s0 = vec![b"x".to_vec()];
+    let mut w: Vec<(String, Ent)> = vec![
+        (format!("data/{}/anna.bin", d), Ent::File(0)),
+        (format!("data/{}/sub/deep.arc", d), Ent::File(0)),
+        (format!("{}/top.bin", d), Ent::File(0)),
+    ];
+    let tails = [" x", "!", "\"q", "#1", "$", "%", "&", "'", "(", ")", "+", ",", "-old.arc", ".arc", ".bin"];
+    for (i, t) in tails.iter().enumerate() {
+        let e = if i % 4 == 3 { Ent::Dir } else { Ent::File(0) };
+        w.push((format!("data/{}{}", d, t), e.clone()));
+        if i % 2 == 0 {
+            w.push((format!("{}{}", d, t), e));
+        }
+    }
+    let trees: Vec<Vec<(String, Ent)>> = match variant {
+        0 => vec![build_tree(&w)],
+        1 => vec![build_tree(&w), vec![]],
+        2 => vec![vec![], build_tree(&w)],
+        _ => {
+            let a: Vec<(String, Ent)> = w.iter().cloned().enumerate().filter(|(i, _)| i % 2 == 0).map(|(_, e)| e).collect();
+            let b: Vec<(String, Ent)> = w.iter().cloned().enumerate().filter(|(i, _)| i % 2 == 1).map(|(_, e)| e).collect();
+            vec![build_tree(&a), build_tree(&b)]
+        }
+    };
+    let mut l = vec![new_line(id, g, lang, &s0, &[None, None, None, None], &trees)];
+    for dir in ["", "data", d] {
+        for pat in ["~", "**/*", "**/*.arc", "**/*.bin", "*"] {
+            let ph = if pat == "~" { "~".to_string() } else { hexs(pat) };
+            l.push(format!("{} list {} {} 0", id, hexs(dir), ph));
+        }
+        l.push(format!("{} subdirs {} 0", id, hexs(dir)));
+    }
+    l.push(format!("{} list {} ~ 1", id, hexs("data")));
+    l
+}
+
 /// Exact counts: a directory holding exactly `c` entries (spread over two layers, some in both, every
 /// fifth a directory), listed once; one tiny world per count.
 fn count_world(id: &str, g: &str, lang: &str, c: usize) -> Vec<String> {
@@ -1049,11 +1090,32 @@ pub fn gen(seed: u64, tier: &str) -> Vec<String> {
         let id = next_id(&mut n);
         lines.extend(subset_world(&id, "FE14", "EnglishNA", &["a", "m", "z"], &[code & 7, (code >> 3) & 7, (code >> 6) & 7], "0"));
     }
+    // one- and two-layer versions of the subset worlds, and the depth-first-vs-string-order worlds
+    for code in 0..8usize {
+        let id = next_id(&mut n);
+        lines.extend(subset_world(&id, "FE14", "EnglishNA", &["a", "m", "z"], &[code], "0"));
+    }
+    for code in 0..64usize {
+        if !thorough && code % 4 != (seed as usize) % 4 {
+            continue;
+        }
+        let id = next_id(&mut n);
+        lines.extend(subset_world(&id, "FE10", "EnglishNA", &["a", "m", "z"], &[code & 7, code >> 3], "0"));
+    }
+    for (di, d) in ["face", "a", "x.lz", "é"].iter().enumerate() {
+        for variant in 0..4 {
+            if !thorough && di >= 1 && (di + variant + seed as usize) % 4 != 0 {
+                continue;
+            }
+            let id = next_id(&mut n);
+            lines.extend(sibling_world(&id, GAMES[(di + variant) % 5], "EnglishNA", d, variant));
+        }
+    }
     {
         let big_pool = ["a", "c", "m", "q", "z", "B", "m.txt", "é"];
         let worlds = if thorough { 1500 } else if prop0 == "C12" || prop0 == "C14" { 30 } else { 90 };
         for w in 0..worlds {
-            let k = 3 + w % 3;
+            let k = if w % 7 == 6 { 1 + w % 2 } else { 3 + w % 3 };
             let pn = 5 + (rng.below(4) as usize);
             let masks: Vec<usize> = (0..k)
                 .map(|_| match rng.below(6) {
@@ -1134,7 +1196,7 @@ pub fn gen(seed: u64, tier: &str) -> Vec<String> {
         }
     }
     // C. random histories; games x languages round-robin so that every pair occurs
-    let cases = if thorough { 12000 } else if prop == "C12" { 480 } else { 560 };
+    let cases = if thorough { 12000 } else if prop == "C12" { 340 } else { 400 };
     for i in 0..cases {
         let g = GAMES[(i + seed as usize) % 5];
         let lang = LANGS[((i / 5) + seed as usize) % 8];
